@@ -18,3 +18,45 @@ package dtypeutils
 //@   pure
 //@   safe
 //@ end
+
+//@ func (*MetricsTimeRange).CheckInRange
+//@   props C09
+//@   requires tsVal != nil
+//@   ensures result == (tsVal.StartEpochSec <= timeStamp && timeStamp <= tsVal.EndEpochSec)
+//@   pure
+//@   safe
+//@ end
+
+//@ func (*MetricsTimeRange).CheckRangeOverLap
+//@   props C09
+//@   requires tsVal != nil
+//@   requires tsVal.StartEpochSec <= tsVal.EndEpochSec && earliest_ts <= latest_ts
+//@   ensures result == (earliest_ts <= tsVal.EndEpochSec && latest_ts >= tsVal.StartEpochSec)
+//@   pure
+//@   safe
+//@ end
+
+//@ func (*TimeRange).AreTimesFullyEnclosed
+//@   props C02 C03
+//@   requires tr != nil
+//@   ensures result == (tr.StartEpochMs <= lowTs && lowTs <= tr.EndEpochMs && tr.StartEpochMs <= highTs && highTs <= tr.EndEpochMs)
+//@   pure
+//@   safe
+//@ end
+
+// Behavioural contract: the tolerance is what the engine implements (see the
+// C02/C05 findings in /verif/DESIGN.md about the 1e-4 tolerance).
+//@ func AlmostEquals
+//@   props C02 C03 C05
+//@   ensures result == (fabs(left - right) < 0.0001)
+//@   pure
+//@   safe
+//@ end
+
+// ConvertToFloat formats its argument with fmt.Sprint and parses the text:
+// string processing, outside the verifier's subset.  Trusted to have no heap
+// effect; its result is left arbitrary.
+//@ func ConvertToFloat
+//@   assumed
+//@   pure
+//@ end
